@@ -44,6 +44,7 @@ type TunnelScenario struct {
 	Trig  int     `json:"trig"`  // tokens of the client's stream the upstream reads before replying; -1 = EOF
 	UMode string  `json:"umode"`
 	USlow int     `json:"uslow"` // 1: the upstream reads only after it has written everything
+	RT    int     `json:"rt"`    // 1: the listener has a read timeout and the reply comes after the client was silent for longer
 }
 
 type TunnelCase struct {
@@ -56,6 +57,7 @@ type TunnelCase struct {
 	// concretisation, fixed by the check so that a replay is exact
 	Path   string `json:"path"`             // tcp | sni | dyn | ws | tls (tcp listener that terminates TLS)
 	TLSVer int    `json:"tlsver,omitempty"` // tls: 12 | 13 = the client's maximum TLS version
+	Conf   string `json:"conf,omitempty"`   // listener configuration: "" | rt | wt | both (read / write timeout set)
 	Cork   bool   `json:"cork,omitempty"`   // tls: last data record and close_notify leave in ONE tcp segment
 	Spell  string `json:"spell"`            // tiny | line | big | mix | huge (client token 1 = 256 KiB)
 	Hello  string `json:"hello"`            // which captured ClientHello
@@ -168,6 +170,10 @@ type TunnelEnv struct {
 	// TLSClient != nil: the proxy terminates TLS; the client speaks TLS with this configuration
 	// (MaxVersion is set per case).  The tunnelled stream is what the TLS client writes.
 	TLSClient *tls.Config
+	// Late: in scenarios with a listener read timeout (sc.rt = 1) the upstream lets this much time pass
+	// before each triggered write - longer than the timeout.  It creates the situation; no verdict
+	// depends on how long anything takes.
+	Late time.Duration
 	// Before is called with the case before the client connects (e.g. to set the PROXY option).
 	Before func(c *TunnelCase)
 }
@@ -349,6 +355,13 @@ func (r *tunnelRun) upstream(conn *net.TCPConn) {
 			return
 		}
 		for ; i < len(segs); i++ {
+			if c.Sc.RT == 1 && r.env.Late > 0 {
+				select {
+				case <-time.After(r.env.Late):
+				case <-r.quit:
+					return
+				}
+			}
 			if _, err := conn.Write(segs[i]); err != nil {
 				return
 			}
@@ -689,12 +702,19 @@ func JudgeTunnel(c *TunnelCase, res *TunnelResult) (clause, msg string) {
 	}
 	cShort := c.CReads && len(res.CRecv) < len(res.ExpC)
 	uShort := len(res.URecv) < len(res.ExpU)
+	if c.Sc.RT == 1 {
+		// a read timeout may legitimately end the client -> upstream direction of a silent client;
+		// judged is the reply, which no read timeout has a say about
+		uShort = false
+	}
 	if !cShort && !uShort {
 		return "", ""
 	}
 	detail := fmt.Sprintf("upstream read %d of %d bytes (eof=%v err=%q), client read %d of %d bytes (eof=%v err=%q)",
 		len(res.URecv), len(res.ExpU), res.UEOF, res.UErr, len(res.CRecv), len(res.ExpC), res.CEOF, res.CErr)
 	switch {
+	case cShort && c.Sc.RT == 1:
+		return "reply-after-read-timeout", "listener with a read timeout: the reply which came after the client had been silent for longer than that did not reach the client completely: " + detail
 	case uShort && c.Sc.CMode == "abort":
 		// the client finished first (everything sent, FIN sent, all of it acknowledged by the proxy's side)
 		// and then left; that the opposite direction failed afterwards must not cost the upstream any of it
